@@ -4,6 +4,7 @@ followed by natural numbers; lists are length-prefixed.  Anything that does not 
 answered `bad-case` — never defaulted.
 -/
 import Vet.Model.Update
+import Vet.Model.Imports
 namespace Vet.Wire
 open Vet
 
@@ -257,6 +258,28 @@ def updatesToks (u : Updates) : List Nat :=
   ++ [u.imports.length] ++ u.imports.flatMap (fun (a, w) => idxMapToks a ++ idxMapToks w)
   ++ idxMapToks u.publishers ++ idxMapToks u.unpublished
   ++ [u.exemptions.length] ++ u.exemptions.flatMap (fun (n, l) => [n, l.length] ++ l.flatMap exemptionToks)
+
+def peerFile : P PeerFile := do
+  let t ← list custom
+  let d ← list (pair nat nat)
+  let a ← list (pair nat (list (pair bool audit)))
+  let w ← list (pair nat (list (pair bool wildcard)))
+  let c ← list (pair nat (list nat))
+  pure ⟨t, d, a, w, c⟩
+
+def importCfg : P ImportCfg := do
+  let s ← list peerFile
+  let e ← list nat
+  pure ⟨s, e⟩
+
+def auditFullToks (a : Audit) : List Nat := auditToks a ++ [b2n a.fresh]
+
+def wildcardToks (w : Wildcard) : List Nat :=
+  [w.user, w.start, w.stop] ++ listToks w.criteria ++ [b2n w.fresh]
+
+def afileToks (f : AFile) : List Nat :=
+  [f.audits.length] ++ f.audits.flatMap (fun (n, l) => [n, l.length] ++ l.flatMap (fun a => let t := auditFullToks a; t.length :: t))
+  ++ [f.wildcards.length] ++ f.wildcards.flatMap (fun (n, l) => [n, l.length] ++ l.flatMap (fun a => let t := wildcardToks a; t.length :: t))
 
 def resultToks : PkgResult → List Nat
   | .firstParty => [0]
